@@ -562,6 +562,14 @@ class Interp:
             except AssertionError:
                 self.emit(label, 'resrej', [s[1]])       # (refused: negative amounts, or more than there is)
                 raise
+        elif h == 'respool':
+            # a throw-away supply whose names are spelled in the given order; what is observed is the order in which
+            # its levels iterate (positions in the sorted list of names)
+            from usim import Resources
+            names = sorted(self.rname(j) for j in s[1:])
+            pool = Resources(**{self.rname(j): 1 for j in s[1:]})
+            self.emit(label, 'lvorder', [names.index(n) for n, _ in pool.levels])
+            del pool
         elif h == 'levels':
             r = self.res.get(s[1])
             if r is None:
